@@ -111,3 +111,58 @@ def outcome(d, obj=None):
         return ["ok", norm_out(run_call(d, obj))]
     except BaseException as e:  # noqa: BLE001 - the outcome of a failing call is its exception
         return ["exc", type(e).__name__, str(e)]
+
+
+# ------------------------------------------------------------------------------------------------ registries, histories
+
+def freeze(v):
+    import re
+    if isinstance(v, re.Pattern):
+        return ("re", v.pattern, v.flags)
+    if isinstance(v, dict):
+        return {k: freeze(x) for k, x in v.items()}
+    if isinstance(v, (list, tuple)):
+        return [freeze(x) for x in v]
+    return v
+
+
+def registry_snapshot():
+    from schwifty import registry
+    return {str(k): freeze(v) for k, v in registry._registry.items()}
+
+
+def registry_diff(base):
+    """None if the registries equal `base`, else the name of the first differing one."""
+    now = registry_snapshot()
+    if now.keys() != base.keys():
+        return "set of registries: " + ",".join(sorted(set(now) ^ set(base)))
+    for k in base:
+        if now[k] != base[k]:
+            return k
+    return None
+
+
+def run_history(history, base=None):
+    """Execute a history (list of descriptors; {'op': 'create'} stores an object used by later 'obj' steps).
+    Returns {'outcomes': [...], 'snapshots_changed': bool, 'registry': None | name}."""
+    import json
+    stored = {}
+    outcomes = []
+    changed = False
+    for d in history:
+        if d["op"] == "create":
+            key = json.dumps(d["create"], sort_keys=True)
+            obj = create(d["create"])
+            stored[key] = (obj, norm_out(apply_obj(obj, "snapshot")))
+            outcomes.append(None)
+            continue
+        obj = None
+        if d["op"] == "obj":
+            ent = stored.get(json.dumps(d["create"], sort_keys=True))
+            obj = ent[0] if ent else None
+        outcomes.append(outcome(d, obj))
+        for o_, snap in stored.values():
+            if norm_out(apply_obj(o_, "snapshot")) != snap:
+                changed = True
+    return {"outcomes": outcomes, "snapshots_changed": changed,
+            "registry": registry_diff(base) if base is not None else None}
